@@ -110,3 +110,257 @@ M("c19-module-uid-nested", ["C19"],
   (MO, r'(?P<module_name>[^:]+):', r'(?P<module_name>([^:/]+/?)+):'))
 M("c19-implant-md5-nested", ["C19"],
   (IM, r'self._assert_matches_re("implant_md5", [r"^[a-z0-9]{32}\Z"])', r'self._assert_matches_re("implant_md5", [r"^([a-z]*[0-9]*)*\Z"])'))
+
+# ---- C02 ------------------------------------------------------------------
+M("c02-implant-md5-dropped-both", ["C02"],
+  (IM, '            "implant_md5": self.implant_md5,\n', ''),
+  (IM, '        self.implant_md5 = data["implant_md5"]\n', '        self.implant_md5 = data.get("implant_md5")\n'))
+M("c02-size-int32", ["C02"],
+  (IM, '            "size": self.size,\n', '            "size": self.size & 0xFFFFFFFF,\n'))
+M("c02-disc-count-from-number", ["C02"],
+  (IM, '        self.disc_count = int(data["disc_count"])', '        self.disc_count = int(data["disc_number"])'))
+M("c02-dedup-by-checksums", ["C02"],
+  (IM, '                    images = data["payload"]["images"].setdefault(variant, {}).setdefault(arch, [])\n                    image_obj.serialize(images)',
+       '                    images = data["payload"]["images"].setdefault(variant, {}).setdefault(arch, [])\n                    if any(i["checksums"] == image_obj.checksums for i in images):\n                        continue\n                    image_obj.serialize(images)'))
+M("c02-volume-id-empty-for-null", ["C02"],
+  (IM, '        self.volume_id = data["volume_id"]\n', '        self.volume_id = data["volume_id"] or None\n'),
+  (IM, '            "volume_id": self.volume_id,\n', '            "volume_id": self.volume_id if self.volume_id and self.volume_id.strip() else None,\n'))
+M("c02-additional-variants-sorted", ["C02"],
+  (IM, '            result["additional_variants"] = self.additional_variants', '            result["additional_variants"] = sorted(self.additional_variants)'))
+
+# ---- C03 ------------------------------------------------------------------
+M("c03-modules-rpms-sorted", ["C03"],
+  (MO, '        data["payload"]["modules"] = self.modules\n', '        for _v in self.modules.values():\n            for _a in _v.values():\n                for _m in _a.values():\n                    _m["rpms"] = sorted(_m["rpms"])\n        data["payload"]["modules"] = self.modules\n'))
+M("c03-extra-files-sorted", ["C03"],
+  (EF, '        data["payload"]["extra_files"] = self.extra_files\n', '        data["payload"]["extra_files"] = dict((v, dict((a, sorted(l, key=lambda i: i["file"])) for a, l in d.items())) for v, d in self.extra_files.items())\n'))
+M("c03-rpms-null-sigkey-dropped-on-load", ["C03"],
+  (RP, '        self.rpms = data["payload"]["rpms"]\n', '        self.rpms = data["payload"]["rpms"]\n        for _v in self.rpms.values():\n            for _a in _v.values():\n                for _s in _a.values():\n                    for _r in _s.values():\n                        if _r.get("sigkey") is None:\n                            _r["sigkey"] = ""\n'))
+
+# ---- C04 ------------------------------------------------------------------
+M("c04-optionxform-lower", ["C04"],
+  (CM, "        # don't convert options to lower()\n        return optionstr", "        return optionstr.lower()"))
+M("c04-identity-not-a-field", ["C04"],
+  (TI, '            # others\n            "identity",\n', ''))
+M("c04-media-swapped", ["C04"],
+  (TI, '        parser.set(self._section, "discnum", str(int(self.discnum)))\n        parser.set(self._section, "totaldiscs", str(int(self.totaldiscs)))',
+       '        parser.set(self._section, "discnum", str(int(self.totaldiscs)))\n        parser.set(self._section, "totaldiscs", str(int(self.discnum)))'))
+M("c04-platforms-without-arch", ["C04", "C17"],
+  (TI, '        parser.set(self._section, "platforms", ",".join(sorted(self.platforms | set([self.arch]))))', '        parser.set(self._section, "platforms", ",".join(sorted(self.platforms)) or self.arch)'))
+M("c04-discinfo-join-comma-space", ["C04"],
+  (DI, '            lines.append(",".join([str(i) for i in self.disc_numbers]))', '            lines.append(", ".join([str(i) for i in self.disc_numbers]))'))
+M("c04-discinfo-timestamp-2f", ["C04"],
+  (DI, '        lines.append(str(self.timestamp).strip())', '        lines.append(("%.6f" % self.timestamp).strip())'))
+M("c04-stage2-instimage-only-with-main", ["C04"],
+  (TI, '        if self.instimage:\n            parser.set(self._section, "instimage", self.instimage)', '        if self.instimage and self.mainimage:\n            parser.set(self._section, "instimage", self.instimage)'))
+M("c04-child-parent-lost-depth3", ["C04"],
+  (TI, '        if variant_uids:\n            parser.set(self._section, "addons", ",".join(sorted(variant_uids)))', '        if variant_uids and (self.parent is None or self.type != "addon"):\n            parser.set(self._section, "addons", ",".join(sorted(variant_uids)))'))
+
+# ---- C05 ------------------------------------------------------------------
+M("c05-src-images-first-arch-only", ["C05", "C10"],
+  (IM, '                self.add(variant, variant_arch, image)\n        else:', '                self.add(variant, variant_arch, image)\n                break\n        else:'))
+M("c05-rpms03-forgets-source", ["C05", "C10"],
+  (RP, '                        if srpm_data is not None:\n                            self.add(', '                        if srpm_data is not None and category == "source":\n                            self.add('))
+M("c05-composeinfo-version-not-updated", ["C05"],
+  (CI, '        self.variants.deserialize(data["payload"])\n        self.header.set_current_version()\n', '        self.variants.deserialize(data["payload"])\n'))
+M("c05-treeinfo03-src-swap-removed", ["C05"],
+  (TI, '            setattr(self, field, value)\n\n        if self._metadata.tree.arch == "src":\n            self.source_packages = self.packages\n            self.source_repository = self.repository\n            self.packages = None\n            self.repository = None\n\n    def deserialize_1_0',
+       '            setattr(self, field, value)\n\n    def deserialize_1_0'))
+M("c05-treeinfo00-fix-path-dropped", ["C05"],
+  (TI, '                self.images[platform][image] = self._fix_path(path)', '                self.images[platform][image] = path.lstrip("/")'))
+M("c05-legacy-release-type-not-lowered", ["C05"],
+  (CI, '        self.is_layered = bool(data["product"].get("is_layered", False))\n', '        self.is_layered = False\n'))
+M("c05-legacy-prefix-children-exact-depth", ["C05"],
+  (CI, '            variant_uids = [i for i in variant_uids if i.startswith("%s-" % variant_uid)]', '            variant_uids = sorted(i for i in variant_uids if i.startswith("%s-" % variant_uid))[:1]'))
+M("c05-images10-format-default", ["C05"],
+  (IM, '        self.format = data.get("format", "iso")', '        self.format = data.get("format", self.type if self.type in SUPPORTED_IMAGE_FORMATS else "iso")'))
+
+# ---- C06 ------------------------------------------------------------------
+M("c06-implant-validator-gone", ["C06"],
+  (IM, '        if self.implant_md5 is not None:\n            self._assert_matches_re("implant_md5", [r"^[a-z0-9]{32}\\Z"])', '        pass'))
+M("c06-compose-serialize-no-validate", ["C06"],
+  (CI, '    def serialize(self, data):\n        self.validate()\n        data[self._section] = {}\n        data[self._section]["id"] = self.id', '    def serialize(self, data):\n        data[self._section] = {}\n        data[self._section]["id"] = self.id'))
+M("c06-merges-variants-renamed", ["C06"],
+  (IM, '    def _validate_merges_variants(self):', '    def _check_merges_variants(self):'))
+M("c06-tree-serialize-no-validate", ["C06"],
+  (TI, '    def serialize(self, parser):\n        self.validate()\n        parser.add_section(self._section)\n        parser.set(self._section, "arch", self.arch)', '    def serialize(self, parser):\n        parser.add_section(self._section)\n        parser.set(self._section, "arch", self.arch)'))
+M("c06-variant-type-validator-only-top", ["C06"],
+  (CI, '    def _validate_type(self):\n        self._assert_value("type", VARIANT_TYPES)', '    def _validate_type(self):\n        if self.parent is None or self.parent.parent is None:\n            self._assert_value("type", VARIANT_TYPES)'))
+M("c06-image-validate-only-first-in-cell", ["C06"],
+  (IM, '        data = parser\n        self.validate()\n        result = {', '        data = parser\n        if not data:\n            self.validate()\n        result = {'))
+M("c06-label-prefix-match", ["C06"],
+  (CI, r'LABEL_RE_LIST.append(re.compile(r"^%s-\d+\.\d+\Z" % label_name))', r'LABEL_RE_LIST.append(re.compile(r"^%s-\d+\.\d+" % label_name))'))
+M("c06-media-totaldiscs-unchecked", ["C06"],
+  (TI, '    def _validate_totaldiscs(self):\n        self._assert_type("totaldiscs", list(six.integer_types) + [type(None)])', '    def _validate_totaldiscs(self):\n        self._assert_type("totaldiscs", list(six.integer_types) + [type(None), float, str])'))
+M("c06-drop-image-type-pr-3", ["C06"],
+  (IM, "    'vsphere-ova': ['vsphere.ova'],\n", ""))
+
+# ---- C07 ------------------------------------------------------------------
+M("c07-type-gate-1-2", ["C07"],
+  (CM, '        if self.version_tuple >= (1, 1):\n            metadata_type = data[self._section]["type"]', '        if self.version_tuple >= (1, 2):\n            metadata_type = data[self._section].get("type", self.metadata_type)'))
+M("c07-type-gate-exclusive", ["C07"],
+  (CM, '        if self.version_tuple >= (1, 1):\n            metadata_type = data[self._section]["type"]', '        if (1, 1) <= self.version_tuple < (2, 0):\n            metadata_type = data[self._section]["type"]'))
+M("c07-image-deserialize-no-validate", ["C07"],
+  (IM, '        self.additional_variants = data.get("additional_variants", [])\n        self.validate()\n', '        self.additional_variants = data.get("additional_variants", [])\n'))
+M("c07-compose-deserialize-no-validate", ["C07"],
+  (CI, '            self.deserialize_1_0(data)\n        self.validate()\n\n    def deserialize_0_3(self, data):\n        self.id = data[self._section]["id"]', '            self.deserialize_1_0(data)\n\n    def deserialize_0_3(self, data):\n        self.id = data[self._section]["id"]'))
+M("c07-tree-deserialize-no-validate", ["C07"],
+  (TI, '            self.deserialize_1_0(parser)\n        self.validate()\n\n    def deserialize_0_0(self, parser):\n        self.arch = parser.get("general", "arch")', '            self.deserialize_1_0(parser)\n\n    def deserialize_0_0(self, parser):\n        self.arch = parser.get("general", "arch")'))
+M("c07-treeinfo-type-gate", ["C07"],
+  (TI, '            if self.version_tuple >= (1, 1):\n                metadata_type = parser.get(self._section, "type")', '            if self.version_tuple >= (1, 1) and parser.has_option(self._section, "type"):\n                metadata_type = parser.get(self._section, "type")'))
+M("c07-images-deserialize-bypasses-add", ["C07", "C09", "C10"],
+  (IM, '                    else:\n                        self.add(variant, arch, image_obj)\n        self.header.set_current_version()', '                    else:\n                        self.images.setdefault(variant, {}).setdefault(arch, set()).add(image_obj)\n        self.header.set_current_version()'))
+M("c07-variant-deserialize-no-validate", ["C07"],
+  (CI, '            self.add(variant)\n\n        self.validate()\n\n    def serialize(self, data):\n        dump = {}', '            self.add(variant)\n\n    def serialize(self, data):\n        dump = {}'))
+
+# ---- C08 ------------------------------------------------------------------
+M("c08-images-not-sorted", ["C08"],
+  (IM, '                    images.sort(key=lambda x: x["path"])\n', ''))
+M("c08-sort-keys-false", ["C08"],
+  (CM, 'json.dump(parser, f, indent=4, sort_keys=True, separators = (",", ": "))', 'json.dump(parser, f, indent=4, sort_keys=False, separators = (",", ": "))'))
+M("c08-arches-unsorted", ["C08"],
+  (CI, '        dump["arches"] = sorted(self.arches)', '        dump["arches"] = list(self.arches)'))
+M("c08-sorteddict-unsorted", ["C08"],
+  (CM, '        return sorted(dict.keys(self), reverse=False)', '        return list(dict.keys(self))'))
+M("c08-addons-unsorted", ["C08"],
+  (TI, '            parser.set(self._section, "addons", ",".join(sorted(variant_uids)))', '            parser.set(self._section, "addons", ",".join(variant_uids))'))
+M("c08-platforms-raw-set", ["C08"],
+  (TI, '        parser.set(self._section, "platforms", ",".join(sorted(self.platforms | set([self.arch]))))', '        parser.set(self._section, "platforms", ",".join(self.platforms | set([self.arch])))'))
+M("c08-indent-2-for-large", ["C08"],
+  (CM, 'json.dump(parser, f, indent=4, sort_keys=True, separators = (",", ": "))', 'json.dump(parser, f, indent=4 if len(parser.get("payload", {})) < 4 else 2, sort_keys=True, separators = (",", ": "))'))
+M("c08-child-ids-unsorted", ["C08"],
+  (CI, '            dump["variants"] = sorted(variant_ids)', '            dump["variants"] = list(variant_ids)'))
+
+# ---- C09 ------------------------------------------------------------------
+M("c09-drop-disc-number-from-identity", ["C09"],
+  (IM, '    "arch",\n    "disc_number",\n    "unified",', '    "arch",\n    "unified",'))
+M("c09-scan-target-variant-only", ["C09"],
+  (IM, '            for checkvar in self.images:\n                for checkarch in self.images[checkvar]:', '            for checkvar in [v for v in self.images if v == variant]:\n                for checkarch in self.images[checkvar]:'))
+M("c09-gate-exclusive", ["C09"],
+  (IM, '        if self.header.version_tuple >= (1, 1):\n            # disallow adding', '        if self.header.version_tuple > (1, 1):\n            # disallow adding'))
+M("c09-insert-before-check", ["C09"],
+  (IM, '        if self.header.version_tuple >= (1, 1):\n            # disallow adding', '        self.images.setdefault(variant, {}).setdefault(arch, set()).add(image)\n        if self.header.version_tuple >= (1, 1):\n            # disallow adding'))
+M("c09-identify-unified-none", ["C09"],
+  (IM, '        unified=ui.unified or False, additional_variants=ui.additional_variants or []', '        unified=ui.unified, additional_variants=ui.additional_variants or []'))
+M("c09-additional-variants-as-set", ["C09"],
+  (IM, 'additional_variants=ui.additional_variants or []\n', 'additional_variants=sorted(set(ui.additional_variants or []))\n'))
+M("c09-scan-same-arch-only", ["C09"],
+  (IM, '                for checkarch in self.images[checkvar]:\n                    for curimg', '                for checkarch in [a for a in self.images[checkvar] if a == arch or checkvar != variant]:\n                    for curimg'))
+
+# ---- C10 ------------------------------------------------------------------
+M("c10-images-nosrc-allowed", ["C10"],
+  (IM, '        if arch in ["src", "nosrc"]:\n            raise ValueError("Source arch is not allowed. Map source files under binary arches.")\n        if self.header', '        if arch in ["src"]:\n            raise ValueError("Source arch is not allowed. Map source files under binary arches.")\n        if self.header'))
+M("c10-rpms-nosrc-allowed", ["C10"],
+  (RP, '        if arch in ["src", "nosrc"]:', '        if arch == "src":'))
+M("c10-images-unknown-arch-allowed", ["C10"],
+  (IM, '        if arch not in productmd.common.RPM_ARCHES:\n            raise ValueError("Arch not found in RPM_ARCHES: %s" % arch)\n        if arch in ["src", "nosrc"]:\n            raise ValueError("Source arch is not allowed. Map source files under binary arches.")\n        if self.header',
+       '        if arch in ["src", "nosrc"]:\n            raise ValueError("Source arch is not allowed. Map source files under binary arches.")\n        if self.header'))
+M("c10-rpms03-src-kept", ["C10"],
+  (RP, '                if arch == "src":\n                    continue\n', '                if arch == "src" and len(payload[variant]) > 1:\n                    continue\n'))
+M("c10-arch-case-insensitive", ["C10"],
+  (RP, '        if arch not in productmd.common.RPM_ARCHES:', '        if arch.lower() not in productmd.common.RPM_ARCHES:'))
+M("c10-drop-arch-from-table", ["C10", "C06"],
+  (CM, '"riscv128", "riscv32", "riscv64",', '"riscv32", "riscv64",'))
+
+# ---- C11 ------------------------------------------------------------------
+M("c11-duplicate-check-removed", ["C11"],
+  (CI, '            new_variant = self.variants.setdefault(variant_id, variant)\n            if new_variant != variant:\n                raise ValueError("Variant ID already exists: %s" % variant.id)', '            self.variants[variant_id] = variant'))
+M("c11-result-not-sorted", ["C11"],
+  (CI, '        result.sort(key=lambda x: x.uid)\n', ''))
+M("c11-arch-filter-dropped-recursive", ["C11"],
+  (CI, 'result.extend(variant.get_variants(arch=arch, types=', 'result.extend(variant.get_variants(types='))
+M("c11-uid-scan-removed", ["C11"],
+  (CI, '            for i in self.variants:\n                var = self.variants[i]\n                if var.uid == name:\n                    return var\n            return self.variants[head][tail]', '            return self.variants[head][tail]'))
+M("c11-parent-not-restored", ["C11"],
+  (CI, '            # a refused variant must not stay re-parented\n            variant.parent = old_parent\n', '            # a refused variant must not stay re-parented\n'))
+M("c11-parent-arch-truthiness", ["C11"],
+  (CI, '    def _validate_parent_arch(self):\n        if self.parent is None:', '    def _validate_parent_arch(self):\n        if not self.parent:'))
+M("c11-type-filter-self-leak", ["C11"],
+  (CI, '            if types and variant.type not in types:\n                continue', '            if types and variant.type not in types and not recursive:\n                continue'))
+M("c11-src-arch-only-flat", ["C11"],
+  (CI, '            if arch and arch not in variant.arches.union(["src"]):', '            if arch and arch not in (variant.arches.union(["src"]) if not recursive else variant.arches):'))
+
+# ---- C12 ------------------------------------------------------------------
+M("c12-sigkey-not-lowered", ["C12"],
+  (RP, '        if sigkey is not None:\n            sigkey = sigkey.lower()\n', ''))
+M("c12-setdefault-before-checks", ["C12"],
+  (RP, '        if category not in SUPPORTED_CATEGORIES:\n            raise ValueError("Invalid category value: %s" % category)\n\n        if not path:', '        self.rpms.setdefault(variant, {}).setdefault(arch, {})\n        if category not in SUPPORTED_CATEGORIES:\n            raise ValueError("Invalid category value: %s" % category)\n\n        if not path:'))
+M("c12-srpm-key-not-canonical", ["C12", "C13"],
+  (RP, '        if srpm_nevra:\n            srpm_nevra, _ = self._check_nevra(srpm_nevra)', '        if srpm_nevra:\n            self._check_nevra(srpm_nevra)'))
+M("c12-relative-to-no-slash", ["C12"],
+  (EF, '    root = root.rstrip("/") + "/"\n    if path.startswith(root):\n        return path[len(root):]', '    root = root.rstrip("/")\n    if path.startswith(root):\n        return path[len(root):].lstrip("/")'))
+M("c12-modules-rpms-assigned", ["C12"],
+  (MO, '        metadata.setdefault("rpms", []).extend(list(rpms))', '        metadata["rpms"] = list(rpms)'))
+M("c12-category-check-removed", ["C12"],
+  (RP, '        if category not in SUPPORTED_CATEGORIES:\n            raise ValueError("Invalid category value: %s" % category)\n\n        if not path:', '        if not path:'))
+M("c12-modulemd-path-overwrites-categories", ["C12"],
+  (MO, '        metadata.setdefault("modulemd_path", {})[category] = modulemd_path', '        metadata["modulemd_path"] = {category: modulemd_path}'))
+M("c12-extra-checksums-shared", ["C12"],
+  (EF, '        metadata.append({"file": path, "size": size, "checksums": checksums})', '        if metadata and metadata[-1]["file"] == path:\n            metadata[-1] = {"file": path, "size": size, "checksums": checksums}\n        else:\n            metadata.append({"file": path, "size": size, "checksums": checksums})'))
+M("c12-modules-koji-tag-kept", ["C12"],
+  (MO, '            "koji_tag": koji_tag,\n        }', '            "koji_tag": metadata.get("metadata", {}).get("koji_tag", koji_tag),\n        }'))
+
+# ---- C16 ------------------------------------------------------------------
+M("c16-one-chunk-only", ["C16"],
+  (TI, '            checksum.update(chunk)\n', '            checksum.update(chunk)\n            if fo.tell() >= 4 * 1024**2:\n                break\n'))
+M("c16-stop-on-short-read", ["C16"],
+  (TI, '            if not chunk:\n                break\n            checksum.update(chunk)', '            if len(chunk) < 1024**2:\n                checksum.update(chunk) if len(chunk) > 1 else None\n                break\n            checksum.update(chunk)'))
+M("c16-normpath-dropped", ["C16"],
+  (TI, '        relative_path = os.path.normpath(relative_path)\n', '        relative_path = relative_path.lstrip("./") if relative_path.startswith("./") else relative_path\n'))
+M("c16-sha1-typed-sha256", ["C16"],
+  (TI, '                        checksum_type, checksum = "sha1", value', '                        checksum_type, checksum = "sha256", value'))
+M("c16-add-checksum-overwrites", ["C16"],
+  (IM, '            if checksum_value and checksum_value != self.checksums[checksum_type]:\n                raise ValueError', '            if checksum_value and checksum_value != self.checksums[checksum_type] and not root:\n                raise ValueError'),
+  (IM, '            return self.checksums[checksum_type]\n', '            if not checksum_value:\n                return self.checksums[checksum_type]\n'))
+M("c16-absolute-refusal-removed", ["C16"],
+  (TI, '        if relative_path.startswith("/"):\n            raise ValueError("Relative path expected: %s" % relative_path)\n        relative_path', '        relative_path'))
+M("c16-unknown-length-falls-to-md5", ["C16"],
+  (TI, '                    else:\n                        raise ValueError("Unknown checksum type for %s: %s" % (path, value))', '                    elif len(value) == 128:\n                        checksum_type, checksum = "sha512", value\n                    else:\n                        raise ValueError("Unknown checksum type for %s: %s" % (path, value))'))
+M("c16-hexdigest-upper-for-blake", ["C16"],
+  (TI, '    return checksum.hexdigest().lower()', '    return checksum.hexdigest().lower() if checksum.digest_size != 28 else checksum.hexdigest()[:-1] + "0"'))
+
+# ---- C17 ------------------------------------------------------------------
+M("c17-default-main-last", ["C17"],
+  (TI, '            variant = variants[0]\n        else:\n            variant = main_variant', '            variant = variants[-1]\n        else:\n            variant = main_variant'))
+M("c17-timestamp-str", ["C17"],
+  (TI, 'parser.set(self._section, "timestamp", str(int(self._metadata.tree.build_timestamp)))', 'parser.set(self._section, "timestamp", str(self._metadata.tree.build_timestamp))'))
+M("c17-general-platforms-without-arch", ["C17"],
+  (TI, '        parser.set(self._section, "platforms", ",".join(sorted(self._metadata.tree.platforms | set([self._metadata.tree.arch]))))', '        parser.set(self._section, "platforms", ",".join(sorted(self._metadata.tree.platforms)) or self._metadata.tree.arch)'))
+M("c17-family-from-short", ["C17"],
+  (TI, '        parser.set(self._section, "family", self._metadata.release.name)', '        parser.set(self._section, "family", self._metadata.release.short or self._metadata.release.name)'))
+M("c17-src-fallback-removed", ["C17"],
+  (TI, '        elif self._metadata.tree.arch == "src" and self._metadata.variants[variant].paths.source_repository is not None:', '        elif False and self._metadata.variants[variant].paths.source_repository is not None:'))
+M("c17-packagedir-from-first", ["C17"],
+  (TI, '        if self._metadata.variants[variant].paths.packages is not None:\n            parser.set(self._section, "packagedir", self._metadata.variants[variant].paths.packages)', '        if self._metadata.variants[variants[0]].paths.packages is not None:\n            parser.set(self._section, "packagedir", self._metadata.variants[variants[0]].paths.packages)'))
+M("c17-name-without-version", ["C17"],
+  (TI, '        parser.set(self._section, "name", "%s %s" % (self._metadata.release.name, self._metadata.release.version))', '        parser.set(self._section, "name", ("%s %s" % (self._metadata.release.name, self._metadata.release.major_version)))'))
+M("c17-src-fallback-binary-tree", ["C17"],
+  (TI, '        elif self._metadata.tree.arch == "src" and self._metadata.variants[variant].paths.source_packages is not None:', '        elif self._metadata.variants[variant].paths.source_packages is not None:'))
+
+# ---- C18 ------------------------------------------------------------------
+M("c18-open-before-serialize", ["C18"],
+  (CM, '        parser = self._get_parser()\n        self.serialize(parser)\n        with open_file_obj(f, "w") as f:\n            self.build_file(parser, f)', '        with open_file_obj(f, "w") as f:\n            parser = self._get_parser()\n            self.serialize(parser)\n            self.build_file(parser, f)'))
+M("c18-treeinfo-open-before-serialize", ["C18"],
+  (TI, '        parser = self._get_parser()\n        self.serialize(parser, main_variant=main_variant)\n        with productmd.common.open_file_obj(f, "w") as f:\n            self.build_file(parser, f)', '        with productmd.common.open_file_obj(f, "w") as f:\n            parser = self._get_parser()\n            self.serialize(parser, main_variant=main_variant)\n            self.build_file(parser, f)'))
+M("c18-delete-on-failure", ["C18"],
+  (CM, '        parser = self._get_parser()\n        self.serialize(parser)\n        with open_file_obj(f, "w") as f:\n            self.build_file(parser, f)', '        parser = self._get_parser()\n        try:\n            self.serialize(parser)\n        except Exception:\n            if isinstance(f, six.string_types) and os.path.exists(f):\n                os.unlink(f)\n            raise\n        with open_file_obj(f, "w") as f:\n            self.build_file(parser, f)'))
+M("c18-touch-destination-first", ["C18"],
+  (CM, '        self.validate()\n        # serialize (and thereby validate all nested objects) before the', '        self.validate()\n        if isinstance(f, six.string_types) and not os.path.exists(f):\n            open(f, "a").close()\n        # serialize (and thereby validate all nested objects) before the'))
+
+# ---- C20 ------------------------------------------------------------------
+M("c20-direct-preferred", ["C20"],
+  (CO, '        if _file_exists(os.path.join(path, "metadata/composeinfo.json")):\n            self.compose_path = path\n', '        if _file_exists(os.path.join(compose_path, "metadata/composeinfo.json")):\n            pass\n        elif _file_exists(os.path.join(path, "metadata/composeinfo.json")):\n            self.compose_path = path\n'))
+M("c20-legacy-rpm-name-dropped", ["C20"],
+  (CO, '            "metadata/rpms.json",\n            "metadata/rpm-manifest.json",\n', '            "metadata/rpms.json",\n'))
+M("c20-images-cache-not-stored", ["C20"],
+  (CO, '        self._images = self._load_metadata(paths, productmd.images.Images)\n        return self._images', '        return self._load_metadata(paths, productmd.images.Images)'))
+M("c20-except-keyerror", ["C20"],
+  (CO, '        except ValueError as exc:', '        except KeyError as exc:'))
+M("c20-legacy-scan-any-subdir", ["C20"],
+  (CO, '                if _file_exists(metadata_path):\n                    self.compose_path = path\n                    break', '                if os.path.isdir(path) and not i.startswith("."):\n                    self.compose_path = path\n                    break'))
+M("c20-trailing-slash-compose", ["C20"],
+  (CO, '        path = os.path.join(compose_path, "compose")\n', '        path = compose_path + "/compose" if not compose_path.endswith("/") else compose_path + "/compose/"[1:-1] + "x"[:0]\n        path = path if not compose_path.endswith("//") else compose_path\n'))
+M("c20-modules-reuse-rpms-cache", ["C20"],
+  (CO, '        if self._modules is not None:\n            return self._modules\n', '        if self._modules is not None or self._rpms is not None and False:\n            return self._modules\n'),
+  (CO, '        self._modules = self._load_metadata(paths, productmd.modules.Modules)\n        return self._modules', '        obj = self._load_metadata(paths, productmd.modules.Modules)\n        self._modules = obj if self._composeinfo is not None else None\n        return obj'))
+M("c20-error-message-no-location", ["C20"],
+  (CO, "        raise RuntimeError('Failed to load metadata from %s' % self.compose_path)", "        raise RuntimeError('Failed to load metadata')"))
